@@ -455,6 +455,10 @@ def gather(node: ir.Node, op, state: OptimizerState) -> ReturnValue:
         return None
     if indices_numpy_value.ndim != 1:
         return None
+    rank = len(input_sym_value)
+    if any(i < -rank or i >= rank for i in indices_numpy_value):
+        # Out of range: the node fails at run time; leave it alone.
+        return None
     gathered = [input_sym_value[i] for i in indices_numpy_value]
     output = _get_output(node, 0)
     if output is not None:
